@@ -243,11 +243,11 @@ Proof. destruct h as [[|d0 d]|a|pcs]; cbn; congruence. Qed.
 Lemma digit_plain sp c : is_digit c = true -> plainc sp c = true.
 Proof. unfold is_digit, plainc, auth_delim, is_tnl. destruct sp; lia. Qed.
 
-Lemma port_text_scan sp pt X : port_ok None pt \/ True -> tail_ok X ->
+Lemma port_text_scan sp pt X : tail_ok X ->
   (match pt with Some p => p <= 65535 | None => True end) ->
   forall count last, scan_last_at sp (port_text pt ++ X) count last = last.
 Proof.
-  intros _ HX Hp count last. destruct pt as [p|]; cbn [port_text app].
+  intros HX Hp count last. destruct pt as [p|]; cbn [port_text app].
   - change (58 :: decimal p ++ X) with ((58 :: decimal p) ++ X). rewrite scan_plain.
     + apply scan_stop. apply tail_stop. exact HX.
     + cbn [forallb]. replace (plainc sp 58) with true by (destruct sp; reflexivity). cbn [andb].
@@ -260,8 +260,8 @@ Lemma auth_scan st h pt X : host_ok hp hpo hd st h -> (h = HDomain [] -> pt = No
   forall count last, scan_last_at (st_is_special st) (hd h ++ port_text pt ++ X) count last = last.
 Proof.
   intros Hh Hemp Hp HX. destruct Hh as [[-> _]|(Hne & Ht & _)].
-  - rewrite (hd_empty hp hpo hd HOK). cbn [app]. apply port_text_scan; [right; exact I | exact HX | exact Hp].
-  - apply host_text_scan; [exact Ht|]. apply port_text_scan; [right; exact I | exact HX | exact Hp].
+  - rewrite (hd_empty hp hpo hd HOK). cbn [app]. apply port_text_scan; [exact HX | exact Hp].
+  - apply host_text_scan; [exact Ht|]. apply port_text_scan; [exact HX | exact Hp].
 Qed.
 
 Lemma port_ok_le dflt pt : port_ok dflt pt -> match pt with Some p => p <= 65535 | None => True end.
